@@ -2,7 +2,12 @@
 
 package pubsub
 
-import "context"
+import (
+	"context"
+	"sync"
+)
 
 func verifAt(context.Context, string, ...any) {}
 func verifSig(string, ...any)                 {}
+
+func (dq *Deque[T]) verifCondName(*sync.Cond) string { return "" }
